@@ -124,10 +124,14 @@ class Extract:
             elif lead:
                 kl += ":separate-value-with-leading-dash"
             return {"argv": argv, "expected": exp, "observed": got, "klass": kl}
-        # the command-string form is equivalent
-        cmd = CompileCommand("f.c", command=shlex.join(["gcc"] + argv))
-        if cmd.arguments != ["gcc"] + argv:
-            return {"argv": argv, "expected": ["gcc"] + argv, "observed": cmd.arguments, "klass": "command-string-form"}
+        # the command-string form is equivalent: quoted as shlex.join does it, and with every special character escaped by a
+        # backslash instead (no quote character in the string at all)
+        def backslashed(words):
+            return " ".join("".join(c if (c.isalnum() or c in "-_=./+:,@%") else "\\" + c for c in w) if w else "''" for w in words)
+        for rendered in (shlex.join(["gcc"] + argv), backslashed(["gcc"] + argv)):
+            cmd = CompileCommand("f.c", command=rendered)
+            if cmd.arguments != ["gcc"] + argv:
+                return {"argv": argv, "command": rendered, "expected": ["gcc"] + argv, "observed": cmd.arguments, "klass": "command-string-form"}
         return None
 
     def encode(self, inp):
